@@ -1318,27 +1318,6 @@ func (n *TxNotifier) UpdateSpendDetails(spendRequest SpendRequest,
 	n.Lock()
 	defer n.Unlock()
 
-	// The historical rescan runs concurrently with the chain moving on, so
-	// the block it found the spending transaction in may have been
-	// disconnected in the meantime. Every block connected since the request
-	// was registered has been filtered at tip, so a spend within one that
-	// is still part of the chain is already known. Therefore, details found
-	// at or above a height that was disconnected since can only refer to a
-	// stale block, and we'll treat them as not found and keep waiting for
-	// the spend at tip.
-	spendSet, ok := n.spendNotifications[spendRequest]
-	if ok && details != nil && spendSet.details == nil &&
-		spendSet.reorgedHeight != 0 &&
-		uint32(details.SpendingHeight) >= spendSet.reorgedHeight {
-
-		Log.Debugf("Ignoring stale spend details for %v found during "+
-			"historical dispatch: spending height %d has been "+
-			"reorged out of the chain", spendRequest,
-			details.SpendingHeight)
-
-		details = nil
-	}
-
 	return n.updateSpendDetails(spendRequest, details)
 }
 
@@ -1364,6 +1343,25 @@ func (n *TxNotifier) updateSpendDetails(spendRequest SpendRequest,
 	// early to prevent sending duplicate notifications.
 	if spendSet.details != nil {
 		return nil
+	}
+
+	// The historical rescan runs concurrently with the chain moving on, and
+	// relevant transactions reported by the backend are queued apart from
+	// its block notifications, so the block the spending transaction was
+	// found in may have been disconnected in the meantime. Every block
+	// connected since the request was registered has been filtered at tip,
+	// so a spend within one that is still part of the chain is already
+	// known. Therefore, details found at or above a height that was
+	// disconnected since can only refer to a stale block, and we'll treat
+	// them as not found and keep waiting for the spend at tip.
+	if details != nil && spendSet.reorgedHeight != 0 &&
+		uint32(details.SpendingHeight) >= spendSet.reorgedHeight {
+
+		Log.Debugf("Ignoring stale spend details for %v: spending "+
+			"height %d has been reorged out of the chain",
+			spendRequest, details.SpendingHeight)
+
+		details = nil
 	}
 
 	// Since the historical rescan has completed for this request, we'll
